@@ -28,7 +28,9 @@ def features_of(demo_text, pid):
     m = re.search(r"--features[ =]+([\w,]+)", demo_text)
     if m:
         # the nightly-only sibling is not needed to show a change (and does not build on stable)
-        fs = [f for f in m.group(1).split(",") if f and f != "nightly"]
+        # the nightly-only sibling does not build on stable: kept only when the demonstration is run with +nightly
+        keep_nightly = "cargo +nightly" in demo_text
+        fs = [f for f in m.group(1).split(",") if f and (f != "nightly" or keep_nightly)]
         return ",".join(fs)
     return {"C18": "serde", "C19": "rayon"}.get(pid, "")
 
@@ -44,8 +46,11 @@ def validate(outdir, pid, k):
     demo_text = open(demo).read()
     feats = features_of(demo_text, pid)
     fflag = ("--features " + feats) if feats else ""
-    if re.search(r"cargo test[^\n]*--release", demo_text):
+    if re.search(r"cargo (\+nightly )?test[^\n]*--release", demo_text):
         fflag += " --release"   # the demonstration needs a build without debug assertions
+    if re.search(r"cargo (\+nightly )?test[^\n]*--no-default-features", demo_text):
+        fflag += " --no-default-features"
+    tc = "+nightly " if ("nightly" in feats.split(",")) else ""
     wt = tempfile.mkdtemp(prefix="val-%s-%d-" % (pid, k), dir="/tmp")
     os.rmdir(wt)
     res = {"property": pid, "k": k, "features": feats, "ran": []}
@@ -55,8 +60,8 @@ def validate(outdir, pid, k):
             return {"ok": False, "why": "worktree: " + out[-300:]}
         shutil.copy(demo, os.path.join(wt, "tests", "seed_demo.rs"))
         # 1. demo passes on the unchanged tree
-        rc, out = sh("cargo test --offline %s --test seed_demo 2>&1 | tail -15" % fflag, wt)
-        res["ran"].append("cargo test --offline %s --test seed_demo   (unchanged tree)" % fflag)
+        rc, out = sh("cargo %stest --offline %s --test seed_demo 2>&1 | tail -15" % (tc, fflag), wt)
+        res["ran"].append("cargo %stest --offline %s --test seed_demo   (unchanged tree)" % (tc, fflag))
         base_ok = "test result: ok" in out and "FAILED" not in out
         res["demo_passes_without"] = base_ok
         if not base_ok:
@@ -77,7 +82,7 @@ def validate(outdir, pid, k):
         res["suite_passes_with"] = suite_ok
         res["suite_summary"] = out.strip().splitlines()[:4]
         if feats:
-            rc, out2 = sh("cargo test --offline --features %s --test integration 2>&1 | grep -E '^test result|FAILED|^error' | head" % feats, wt)
+            rc, out2 = sh("cargo " + tc + "test --offline --features %s --test integration 2>&1 | grep -E '^test result|FAILED|^error' | head" % feats, wt)
             res["ran"].append("cargo test --offline --features %s --test integration   (with the change)" % feats)
             f_ok = "FAILED" not in out2 and "test result: ok" in out2
             res["suite_passes_with_features"] = f_ok
@@ -91,8 +96,8 @@ def validate(outdir, pid, k):
             return res
         # 4. demo fails with the change
         shutil.copy(demo, os.path.join(wt, "tests", "seed_demo.rs"))
-        rc, out = sh("cargo test --offline %s --test seed_demo 2>&1 | tail -25" % fflag, wt)
-        res["ran"].append("cargo test --offline %s --test seed_demo   (with the change)" % fflag)
+        rc, out = sh("cargo %stest --offline %s --test seed_demo 2>&1 | tail -25" % (tc, fflag), wt)
+        res["ran"].append("cargo %stest --offline %s --test seed_demo   (with the change)" % (tc, fflag))
         fails = "FAILED" in out or "test result: FAILED" in out
         res["demo_fails_with"] = fails
         res["demo_output_tail"] = out.strip().splitlines()[-6:]
